@@ -140,10 +140,22 @@ Proof.
   destruct (bootc m) as [bb|]; [destruct (bb =? 0)|]; cbn [do_boot_time fst snd]; eapply keep_trans; eauto.
 Qed.
 
-Lemma do_wait_keep K x : keep x (fst (do_wait K x)).
+Lemma do_wait_keep K x vis : keep x (fst (do_wait K x vis)).
 Proof.
-  unfold do_wait. destruct (oexit x); [apply keep_refl|]. destruct (kexists K (opid x)); cbn [fst]; [apply keep_refl|].
+  unfold do_wait. destruct (oexit x); [apply keep_refl|]. destruct (opid x <=? 0); [apply keep_refl|].
+  destruct (vis && kexists K (opid x)); cbn [fst]; [apply keep_refl|].
   apply keep_same; reflexivity.
+Qed.
+
+Lemma do_wait_procs_keep K x vis : keep x (fst (fst (do_wait_procs K x vis))).
+Proof.
+  unfold do_wait_procs. pose proof (do_hash_keep x) as [K0 _]. destruct (do_hash x) as [x0 h0]. cbn [fst] in K0.
+  pose proof (do_wait_keep K x0 vis) as K1. destruct (do_wait K x0 vis) as [x1 r1]. cbn [fst] in K1.
+  assert (K01 : keep x x1) by (eapply keep_trans; eauto).
+  destruct r1 as [u|e|]; cbn [fst]; try exact K01.
+  - pose proof (is_running_keep K x1) as [K2 _]. destruct (is_running K x1) as [[x2 r2] add]. cbn [fst] in *.
+    eapply keep_trans; eauto.
+  - destruct e; exact K01.
 Qed.
 
 Lemma new_obj_PI K p y : new_obj K p = Val y -> PI y.
@@ -210,7 +222,7 @@ Proof. intros Fn. split; [apply ext_app|]. intros F. apply Forall_app; auto. Qed
 (* every public call keeps every object, and keeps PI *)
 Lemma mcall_good K m c : good (objs m) (objs (fst (fst (mcall K m c)))).
 Proof.
-  destruct c as [pid|pid|o|o s|o|o|o|o|o|a b|a b|o s|o|o| | |o| |g]; cbn [mcall].
+  destruct c as [pid|pid|o|o s|o|o|o|o|o|a b|a b|o s|o|o| | |o vis| |g|o vis]; cbn [mcall].
   - destruct (new_obj K pid) eqn:N; cbn [fst with_objs objs]; try apply good_refl.
     apply good_app. constructor; [eapply new_obj_PI; eauto|constructor].
   - destruct (new_popen K pid) eqn:N; cbn [fst with_objs objs]; try apply good_refl.
@@ -263,7 +275,7 @@ Proof.
     apply iter_loop_objs in L as [news [-> Fn]]. cbn [fst objs]. apply good_app.
     eapply Forall_impl; [|exact Fn]. intros y [p Hy]. eapply new_obj_PI; eauto.
   - destruct (nth_error (objs m) o) as [x|] eqn:Ex; cbn [fst]; try apply good_refl.
-    pose proof (do_wait_keep K x) as Kp. destruct (do_wait K x) as [x1 r]. cbn [fst with_objs objs] in *.
+    pose proof (do_wait_keep K x vis) as Kp. destruct (do_wait K x vis) as [x1 r]. cbn [fst with_objs objs] in *.
     eapply good_upd; eauto.
   - cbn [fst with_gens objs]. apply good_refl.
   - unfold iter_next. destruct (nth_error (gens m) g) as [ge|]; cbn [fst]; try apply good_refl.
@@ -278,6 +290,10 @@ Proof.
     assert (G : good (objs m) (objs m ++ news)).
     { apply good_app. eapply Forall_impl; [|exact Fn]. intros y [p Hy]. eapply new_obj_PI; eauto. }
     destruct r1 as [[i|]|e|]; cbn [fst with_gens with_pmap with_objs objs]; exact G.
+  - destruct (nth_error (objs m) o) as [x|] eqn:Ex; cbn [fst]; try apply good_refl.
+    pose proof (do_wait_procs_keep K x vis) as Kp.
+    destruct (do_wait_procs K x vis) as [[x1 r] add]. cbn [fst with_reusedset with_objs objs] in *.
+    eapply good_upd; eauto.
 Qed.
 
 (* ---------------------------------------------------------------- histories *)
